@@ -26,6 +26,9 @@ type gateSpec struct {
 
 var gateSpecs sync.Map
 
+// total event sizes on and around the buffer sizes of the proxy's write path
+var edgeSizes = []int{4095, 4096, 4097, 6000, 8000, 8192, 8193, 12000, 16384, 32768, 32769, 40000}
+
 func gateHandler(oc *lib.OConn, req *lib.Msg) lib.Action {
 	v, ok := gateSpecs.Load(req.Get1("X-Vid"))
 	if !ok {
@@ -103,7 +106,12 @@ func runGateSeq(gs []*gateSpec, addr string, wait time.Duration) (stream, delive
 func runGateOn(st *lib.Stream, g *gateSpec, wait time.Duration) (delivered int, done bool, t0 time.Time, received string) {
 	fmt.Fprintf(st.C, "GET /gate/%s HTTP/1.1\r\nHost: %s\r\nX-Vid: %s\r\n\r\n", g.id, originHost, g.id)
 	for i := range g.events {
-		marker := []byte(fmt.Sprintf("EVENT-%d-%s;", i, g.id))
+		// the event counts as delivered when its last octets are with the client (for an
+		// unframed event stream: including the blank line that ends the event)
+		marker := []byte(fmt.Sprintf("END-%d-%s;", i, g.id))
+		if g.kind == "sse-eof" {
+			marker = append(marker, '\n', '\n')
+		}
 		t0 = time.Now()
 		for !bytes.Contains(st.All.Bytes(), marker) {
 			b, err := st.ReadN(len(st.Buffered())+1, time.Until(t0.Add(wait)))
@@ -154,10 +162,31 @@ func gates(run *lib.Run, hb *lib.Heartbeat, root *lib.RNG) {
 					for k := r.Intn(3); k > 0; k-- {
 						fmt.Fprintf(&sb, "data: %s\n", r.Str(r.Range(0, 300), "abcdefghij "))
 					}
-					sb.WriteString("\n")
+					end := fmt.Sprintf("data: END-%d-%s;\n\n", e, id)
+					if e%2 == 1 {
+						// one event in two is padded to an exact total size on and around the
+						// buffer sizes of the write path (4096, 8192, 32768), written by the origin at once
+						target := edgeSizes[(i/3*3+e/2)%len(edgeSizes)]
+						for pad := target - sb.Len() - len(end); pad > 0; {
+							l := pad
+							if l > 1000 {
+								l = 1000
+							}
+							if l < 7 {
+								break
+							}
+							fmt.Fprintf(&sb, "data: %s\n", strings.Repeat("x", l-7))
+							pad -= l
+						}
+					}
+					sb.WriteString(end)
 					ev = []byte(sb.String())
 				} else {
 					ev = append([]byte(marker), r.Bytes(lib.Pick(r, []int{0, 1, 100, 4096, 8000}))...)
+					if e%2 == 1 {
+						ev = append([]byte(marker), r.Bytes(edgeSizes[(i/3*3+e/2)%len(edgeSizes)])...)
+					}
+					ev = append(ev, []byte(fmt.Sprintf("END-%d-%s;", e, id))...)
 				}
 				g.events = append(g.events, ev)
 			}
@@ -215,9 +244,9 @@ func gates(run *lib.Run, hb *lib.Heartbeat, root *lib.RNG) {
 					marker := fmt.Sprintf("EVENT-%d-%s;", e, id)
 					if kind == "chunked" {
 						// short chunks without blank lines: nothing but a flush per chunk gets them out
-						g.events = append(g.events, []byte(marker+r.Str(r.Range(0, 200), "abcdefghij")))
+						g.events = append(g.events, []byte(marker+r.Str(r.Range(0, 200), "abcdefghij")+fmt.Sprintf("END-%d-%s;", e, id)))
 					} else {
-						g.events = append(g.events, []byte("data: "+marker+"\n\n"))
+						g.events = append(g.events, []byte("data: "+marker+"\n"+fmt.Sprintf("data: END-%d-%s;\n\n", e, id)))
 					}
 				}
 				gateSpecs.Store(id, g)
